@@ -1,7 +1,7 @@
 (* Properties_C18.v — C18: comparison operators form one coherent relation that agrees with the values. *)
 From Coq Require Import NArith ZArith List Bool.
 From Coq Require Import Floats.SpecFloat.
-From AJ Require Import Model.Base Model.FloatModel Model.Value Model.Compare Proofs.CompareProofs.
+From AJ Require Import Model.Base Model.FloatModel Model.Value Model.Compare Proofs.CompareProofs Proofs.CompareMore.
 
 (* wf v: no object of v (at any depth) repeats a key.  Objects with a repeated key exist only after
    deserializeMsgPack; for them == is NOT symmetric in the code — a recorded known finding, see
@@ -56,6 +56,43 @@ Theorem C18_nan_equals_nothing : forall v,
   op_eq (JDouble S754_nan) v = false /\ op_eq v (JDouble S754_nan) = false.
 Proof. exact nan_equals_nothing. Qed.
 Print Assumptions C18_nan_equals_nothing.
+
+(* all six operators on two integers are the order of Z *)
+Theorem C18_integers_all_six_operators : forall x y,
+  op_eq (JInt x) (JInt y) = Z.eqb x y /\ op_ne (JInt x) (JInt y) = negb (Z.eqb x y) /\
+  op_lt (JInt x) (JInt y) = Z.ltb x y /\ op_gt (JInt x) (JInt y) = Z.ltb y x /\
+  op_le (JInt x) (JInt y) = Z.leb x y /\ op_ge (JInt x) (JInt y) = Z.leb y x.
+Proof. exact int_all_six. Qed.
+Print Assumptions C18_integers_all_six_operators.
+
+(* arrays compare element by element, at any depth and whatever the keys of nested objects: a == b iff the
+   lengths agree and b[i] == a[i] for every i (all2 is Proofs/CompareMore.v's pairwise conjunction, false
+   when the lengths differ); with the operands in the same order when no object repeats a key *)
+Theorem C18_arrays_elementwise : forall la lb,
+  op_eq (JArr la) (JArr lb) = all2 op_eq lb la.
+Proof. exact arrays_elementwise. Qed.
+Print Assumptions C18_arrays_elementwise.
+
+Theorem C18_arrays_elementwise_wf : forall la lb, wf (JArr la) -> wf (JArr lb) ->
+  op_eq (JArr la) (JArr lb) = all2 op_eq la lb.
+Proof. exact arrays_elementwise_wf. Qed.
+Print Assumptions C18_arrays_elementwise_wf.
+
+Theorem C18_equal_arrays_same_length : forall la lb,
+  op_eq (JArr la) (JArr lb) = true -> length la = length lb.
+Proof. exact equal_arrays_same_length. Qed.
+Print Assumptions C18_equal_arrays_same_length.
+
+(* a container equals nothing of another kind, on either side *)
+Theorem C18_array_equals_only_arrays : forall l v,
+  (forall l', v <> JArr l') -> op_eq (JArr l) v = false /\ op_eq v (JArr l) = false.
+Proof. exact array_equals_only_arrays. Qed.
+Print Assumptions C18_array_equals_only_arrays.
+
+Theorem C18_object_equals_only_objects : forall l v,
+  (forall l', v <> JObj l') -> op_eq (JObj l) v = false /\ op_eq v (JObj l) = false.
+Proof. exact object_equals_only_objects. Qed.
+Print Assumptions C18_object_equals_only_objects.
 
 (* the full statement (without wf) is FALSE of the faithful model, with this witness — the known finding *)
 Theorem C18_symmetry_needs_distinct_keys :
